@@ -532,6 +532,12 @@ def _mirsym():
         bounds="5 (quick) / 9 (thorough) (string lengths, batch_size) pairs incl. lengths 254/255/256 and string counts that are multiples of batch_size; first and last byte of each string symbolic",
         spec=so3.UnpackStringsSpec(), stubs=ostub)
 
+    for pid, tag in (("C02", "C02.e"), ("C04", "C04.k")):
+        add(f"{tag}/cast_int_float_null", pid, "mirsym", Q,
+            "TypeConversionOperator<i64, of64> (the cast batch_merging inserts when two partitions' partial results disagree on a column's type): the in-band integer NULL becomes the float NULL, so a NULL partial aggregate stays NULL whatever the partition layout; every other value is converted as `v as f64`",
+            ["<TypeConversionOperator<i64, of64> as VecOperator>::execute", "<i64 as Cast<of64>>::cast"],
+            bounds="0 and 2 rows (quick) / 0,1,3 (thorough), all i64 values", spec=so2.CastIntFloatNullSpec(), stubs=["Scratchpad accessors -> obligation-owned buffers"])
+
 
 _mirsym()
 
